@@ -262,6 +262,9 @@ def scenario_info(c):
 def run_fragment(c, I, fi, node, bound):
     from .symexec import Frame
     fr = Frame(fi, dict(bound), real_module(fi.modname), loopspecs=c.loops)
+    from .contracts import snap
+    memo = {}
+    fr.entry = {k: snap(v, memo) for k, v in bound.items()}
     if c.fragment["mode"] == "expr":
         return I.eval(node, fr), bound
     from .symexec import _Return, _Break, _Continue
@@ -591,6 +594,8 @@ def replay_model(c, model, clause_name):
     """Replay a solver model on the real code. Returns (reproduced, detail)."""
     if model is None:
         return False, "no model"
+    if getattr(c, "skip_cross", False) and c.native is None:
+        return False, "this contract has no native replay harness (its dependencies are abstract stubs); the solver model is attached"
     conc = OrderedDict()
     for k in list(c.params) + list(c.ghosts):
         v = model.get(k)
